@@ -177,6 +177,82 @@ def run(ctx, drv):
             ctx.fail("stops-before-budget" if alg.nfe < budget else "steps-after-budget-reached", inp, alg.nfe, f">= {budget}, first step reaching it is the last", f"core.Algorithm.run ({name})")
         ctx.case(("long-converging", name, budget), True)
     ctx.count("long_converging_and_tiny_runs", 8)
+    # ---- documented constructor options combined: MOEA/D with and without utility-based search x weight generators x numbers of
+    # objectives (tiny weight sets included), NSGA-III with inner divisions, archives and selectors on the generational algorithms.
+    # Every such configuration is a shipped algorithm with a population size; the budget clauses must hold for each
+    from platypus.weights import normal_boundary_weights, random_weights
+    from platypus import core as C_
+
+    def conflicting(nobjs):
+        def f(x):
+            return [sum(((v - 1.0) if j == i else v) ** 2 for j, v in enumerate(x)) for i in range(nobjs)]
+        pr = Problem(nobjs + 1, nobjs, function=f)
+        pr.types[:] = Real(-1, 2)
+        return pr
+    optcfgs = []
+    for nobjs in (2, 3):
+        for uu in (None, 1, 2):
+            for wname, wg, wkw in (("random_weights, population_size=5", random_weights, {"population_size": 5}),
+                                   ("random_weights, population_size=9", random_weights, {"population_size": 9}),
+                                   ("normal_boundary_weights, divisions_outer=2", normal_boundary_weights, {"divisions_outer": 2}),
+                                   ("normal_boundary_weights, divisions_outer=3", normal_boundary_weights, {"divisions_outer": 3}),
+                                   ("normal_boundary_weights, divisions_outer=4", normal_boundary_weights, {"divisions_outer": 4}),
+                                   ("normal_boundary_weights, divisions_outer=3, divisions_inner=1", normal_boundary_weights, {"divisions_outer": 3, "divisions_inner": 1})):
+                optcfgs.append((f"MOEAD(update_utility={uu}, {wname}) on {nobjs} objectives",
+                                lambda p, wg=wg, wkw=wkw, uu=uu: A.MOEAD(p, neighborhood_size=2, weight_generator=wg, update_utility=uu, **wkw), nobjs))
+        optcfgs.append((f"NSGAIII(divisions_outer=3, divisions_inner=1) on {nobjs} objectives", lambda p: A.NSGAIII(p, divisions_outer=3, divisions_inner=1), nobjs))
+        optcfgs.append((f"NSGAII(archive=EpsilonBoxArchive, selector=TournamentSelector(3)) on {nobjs} objectives",
+                        lambda p: A.NSGAII(p, population_size=6, archive=C_.EpsilonBoxArchive([0.1]), selector=O_.TournamentSelector(3)), nobjs))
+        optcfgs.append((f"SPEA2(k=2, dominance=EpsilonDominance) on {nobjs} objectives", lambda p: A.SPEA2(p, population_size=6, k=2, dominance=C_.EpsilonDominance([0.05])), nobjs))
+        optcfgs.append((f"GDE3(population_size=5) on {nobjs} objectives", lambda p: A.GDE3(p, population_size=5), nobjs))
+        optcfgs.append((f"PESA2(divisions=2, capacity=3) on {nobjs} objectives", lambda p: A.PESA2(p, population_size=5, divisions=2, capacity=3), nobjs))
+    nopt = 0
+    for name, mk, nobjs in optcfgs:
+        _random.seed(rng.randrange(2 ** 31))
+        try:
+            alg = mk(conflicting(nobjs))
+        except Exception as e:
+            ctx.notes.append(f"option run not constructed: {name}: {type(e).__name__}: {e}"[:200]) if len(ctx.notes) < 16 else None
+            continue
+        nfes, marks = [], []
+        budgets = [rng.choice([1, 7, 20]), rng.choice([1, 13, 30])]
+        inp = {"algorithm": name, "problem": f"{nobjs} conflicting quadratic objectives in {nobjs + 1} real variables", "budgets": budgets}
+        err = None
+        try:
+            with plat.watchdog(8, on_fire=lambda: TimeoutError("run exceeded the watchdog")):
+                for N in budgets:
+                    marks.append((N, alg.nfe, len(nfes)))
+                    alg.run(N, callback=lambda a: nfes.append(a.nfe))
+        except TimeoutError as e:
+            err = str(e)
+        except Exception as e:
+            err = f"{type(e).__name__}: {e}"
+        if err is not None and "watchdog" in err:
+            ctx.fail("run-does-not-terminate", dict(inp, nfe_when_stopped=alg.nfe, steps=len(nfes), last_counter_values=nfes[-4:]), err, "run(N) returns",
+                     f"core.Algorithm.run ({name.split('(')[0]})")
+            continue
+        if err is not None:
+            ctx.count("option_runs_aborted_by_exception")
+            if len(ctx.notes) < 16:
+                ctx.notes.append(f"option run aborted (not judged by this property): {name}: {err}"[:220])
+            continue
+        nopt += 1
+        marks.append((None, alg.nfe, len(nfes)))
+        for (N, n0, k0), (_, n1, k1) in zip(marks, marks[1:]):
+            seg = nfes[k0:k1]
+            incs = [b - a for a, b in zip([n0] + seg, seg)]
+            sinp = dict(inp, N=N, nfe_at_start=n0, nfe_after_each_step=seg[:12])
+            where = f"core.Algorithm.run ({name.split('(')[0]})"
+            if any(i < 1 for i in incs):
+                ctx.fail("counter-not-strictly-increasing", sinp, incs[:8], "every step adds >= 1", where)
+            elif not seg or seg[-1] - n0 < N:
+                ctx.fail("stops-before-budget", sinp, (seg[-1] - n0) if seg else 0, f">= {N}", where)
+            elif any(x - n0 >= N for x in seg[:-1]):
+                ctx.fail("step-started-after-budget-met", sinp, seg[:12], f"stop at first step reaching {N}", where)
+            if n1 != (seg[-1] if seg else n0):
+                ctx.fail("counter-changed-outside-steps", sinp, n1, seg[-1] if seg else n0, where)
+            ctx.case(("option-run", name, N, n0), len(seg) >= 2)
+    ctx.count("option_combination_runs", nopt)
     if drv.ok:
         out = drv.batch(reqs)
         for g, fn in zip(out, post):
